@@ -56,23 +56,9 @@ def run_a(plan):
 
 
 def in_fresh_thread(fn, *args):
-    """Run fn on a new thread and wait for it.  Only a matter of speed: under
-    Hypothesis the interpreter's frame stack sits where the compiler's recursive
-    descent keeps crossing a stack-chunk boundary (CPython 3.12 maps and unmaps a chunk
-    on every crossing, ~800 munmap calls per compile); a new thread has its own stack."""
-    box = {}
-
-    def run():
-        try:
-            box['value'] = fn(*args)
-        except BaseException as e:      # re-raised in the caller: a harness error
-            box['error'] = e
-    t = threading.Thread(target=run)
-    t.start()
-    t.join()
-    if 'error' in box:
-        raise box['error']
-    return box['value']
+    """Speed only: see core.deep_call (big-frame trampoline against data-stack chunk
+    thrash; the first remedy tried here was a new thread)."""
+    return core.deep_call(fn, *args)
 
 
 def dedupe(fails):
